@@ -72,6 +72,7 @@ type PropSpec struct {
 type KnownFinding struct {
 	ID       string `json:"id"`
 	Property string `json:"property"`
+	Also     []string `json:"also"` // other properties whose harnesses meet the same finding
 	What     string `json:"what"`
 	Status   string `json:"status"` // "open" or "fixed"
 	Commit   string `json:"commit,omitempty"`
@@ -353,7 +354,7 @@ func cmdCheck(args []string) {
 	known := map[string]bool{}
 	knownWhat := map[string]string{}
 	for _, k := range knownList {
-		if k.Property == prop && k.Status == "open" {
+		if (k.Property == prop || contains(k.Also, prop)) && k.Status == "open" {
 			known[k.ID] = true
 			knownWhat[k.ID] = k.What
 		}
